@@ -616,7 +616,7 @@ func (g *c16Gen) commit(hook string, ops []c16Op) {
 }
 
 func runC16(r *Run) {
-	r.Rule = "histories of 1..8 steps by 4 hooks through the real operation parser + MetricStorage.SendBatch on a private registry, observed by Gatherer.Gather() after every step. A step is one batch, or (22%) a CONCURRENT step: 2..4 batches of different hooks, each with its own group(s), sent by one goroutine each in a random start order while a gated Registerer (installed as MetricStorage.Registerer and as the vault's registerer) holds every first registration of a metric open until all calls were started; 70% of the concurrent steps let all their hooks report the same never-used grouped gauge and counter names. A concurrent step is judged against EVERY linearisation of its batches through the reference registry (return value of each call + scrape after all returned). Batches of 1..6 operations mixing up to 2 of 4 groups with ungrouped operations; metric names shared between groups; label sets over the names a, b, x, y (two sorting before `hook`, two after; each present with 30%) with ONE pool of 3 values for all names (equal values under different names), 10% explicit empty values, a `hook` label that must be overridden (15%); action/value and shortcut (`add`/`set`) forms, integer and half-fractional values, explicit expire at any position, 14% of the batches carry one invalid operation (10 kinds) at a random position. Generators stay outside the recorded finding classes (same series written by two groups, name used grouped and ungrouped, ungrouped label-name change, one name with two types), which are replayed as separate known cases. Non-trivial: >= 2 batches, at least one grouped and one valid batch; distinct = distinct op-line sequences."
+	r.Rule = "histories of 1..8 steps by 4 hooks through the real operation parser + MetricStorage.SendBatch on a private registry, observed by Gatherer.Gather() after every step. A step is one batch, or (22%) a CONCURRENT step: 2..4 batches of different hooks, each with its own group(s), sent by one goroutine each in a random start order while a gated Registerer (installed as MetricStorage.Registerer and as the vault's registerer) holds every first registration of a metric open until all calls were started; 70% of the concurrent steps let all their hooks report the same never-used grouped gauge and counter names. A concurrent step is judged against EVERY linearisation of its batches through the reference registry (return value of each call + scrape after all returned). Batches of 1..6 operations mixing up to 2 of 4 groups with ungrouped operations; metric names shared between groups; label sets over the names a, b, x, y (two sorting before `hook`, two after; each present with 30%) with ONE pool of 3 values for all names (equal values under different names), 10% explicit empty values, a `hook` label that must be overridden (15%); action/value and shortcut (`add`/`set`) forms, integer and half-fractional values, explicit expire at any position, 14% of the batches carry one invalid operation (10 kinds) at a random position. Generators stay outside the recorded finding classes (same series written by two groups, name used grouped and ungrouped, ungrouped label-name change, one name with two types), which are replayed as separate known cases. Non-trivial: >= 2 batches, at least one grouped and one valid batch; distinct = distinct op-line sequences. TEXT steps (30% of the sequential steps): the batch is spelled as the text of the metrics file a hook leaves behind (member order, blanks between all tokens, key case, six number spellings per value, \\u escapes, unknown members with nested brackets in strings, nulls for absent fields, duplicate keys; documents joined with or without blanks) and, in 35% of them, damaged in the shapes of harness/c04out.go (cut off inside the last document, stray closers before/between/after documents, trailing garbage, wrong JSON types per field, bad tokens, separators, top-level non-objects, an operation validation rejects; 4%: blank file); the text goes the way a hook's file goes: MetricOperationsFromFile + SendBatch with the hook label unless reading failed (what Hook.Run + handleRunHook do), 10% through a real bash hook and Hook.Run, and in operator worlds (4% of the cases: an assembled ShellOperator with a real hook manager and four bash hooks, its HookMetricStorage is the registry of the case) through the real queue handler taskHandler -> taskHandleHookRun -> handleRunHook. Whether a text is acceptable is decided by the Lean driver from the bytes (HookOutput.metricsOk); a rejected text must fail the execution and leave the scrape unchanged, an accepted one goes through the reference registry."
 	// ---- corpus: the repaired defects (must now hold) ----
 	r.One(0, func(c *Case, _ *Rng) {
 		c.Desc = "corpus: grouped {\"add\":1} shortcut counts once (was applied twice)"
@@ -722,6 +722,29 @@ func runC16(r *Run) {
 		w.sendText(r, "h1.sh", nil, "\n", "operator")
 		w.send("h1.sh", []c16Op{{Name: "gg1", Group: "ga", Action: "set", Value: ip(2), Labels: map[string]string{"x": "3"}}})
 		w.sendText(r, "h1.sh", []c16Op{{Group: "ga", Action: "expire"}}, "{\"group\":\"ga\",\"action\":\"expire\"}", "operator")
+	})
+	r.One(9, func(c *Case, _ *Rng) {
+		c.Desc = "corpus text: EVERY prefix of a three-operation metrics file, shortest first, as one history on one registry: only the cuts at the end of a document are accepted (and apply exactly the complete documents), every cut inside a document fails and applies nothing"
+		c.Nontrivial = true
+		w := newC16World(c)
+		ops := []c16Op{
+			{Name: "gg1", Group: "ga", Action: "set", Value: ip(7), Labels: map[string]string{"x": "1"}},
+			{Name: "uc1_total", Add: ip(2)},
+			{Name: "gc1", Group: "ga", Action: "add", Value: ip(3), Labels: map[string]string{"b": "2"}},
+		}
+		text, ends := "", []int{}
+		for _, o := range ops {
+			text += o.jsonLine()
+			ends = append(ends, len(text))
+			text += "\n"
+		}
+		for n := 0; n <= len(text); n++ {
+			k := 0
+			for k < len(ends) && ends[k] <= n {
+				k++
+			}
+			w.sendText(r, "h1", ops[:k], text[:n], "file")
+		}
 	})
 	// ---- known findings, replayed on every run ----
 	r.One(10, func(c *Case, _ *Rng) {
